@@ -1268,6 +1268,128 @@ fn gen_element_access(g: &mut Gen) {
     }
 }
 
+/// Sizes beyond the small random shapes: matrix multiplication with inner / outer lengths 8..12
+/// in non-square shapes (left and right operand tall and wide), containers of 33..70 elements
+/// created with `variables()` and `reset()` on a tape that already holds entries, elementwise
+/// operations on them.  Single elements are differentiated (`elem` + `derivs`), so the lines stay
+/// short while every parent position matters.
+fn gen_large(g: &mut Gen) {
+    // (m, n, l): m×n times n×l
+    let dims = [(3usize, 9usize, 2usize), (2, 8, 3), (2, 8, 10), (9, 2, 8), (1, 12, 2), (3, 10, 9), (2, 11, 1)];
+    for kind in ["T", "M"] {
+        for &(m, n, l) in &dims {
+            for pairing in ["var_var", "var_const", "const_var"] {
+                g.count(&format!("c06.large.matmul.{}.{}x{}x{}", kind, m, n, l));
+                g.op("@ tapes 1 fp".into());
+                let (sa, sb) = if kind == "T" { (format!("a:{},b:{}", m, n), format!("b:{},c:{}", n, l)) } else { (format!("r:{},c:{}", m, n), format!("r:{},c:{}", n, l)) };
+                let pv = values(g, 2);
+                g.op(format!("vars p T a:2 {} t=0", pv));
+                let (va, vb) = (values(g, m * n), values(g, n * l));
+                let (av, bv) = (pairing != "const_var", pairing != "var_const");
+                g.op(if av { format!("vars x {} {} {} t=0", kind, sa, va) } else { format!("consts x {} {} {}", kind, sa, va) });
+                g.op(if bv { format!("vars y {} {} {} t=0", kind, sb, vb) } else { format!("consts y {} {} {}", kind, sb, vb) });
+                let via = *g.rng.pick(&FORMS4);
+                g.op(format!("matmul z x y via={}", via));
+                let wrt = match pairing {
+                    "var_var" => "x,y",
+                    "var_const" => "x",
+                    _ => "y",
+                };
+                for _ in 0..2 {
+                    let (i, j) = (g.rng.below(m), g.rng.below(l));
+                    let access = if kind == "M" { "matrix" } else { "index_by" };
+                    g.op(format!("elem e z {},{} via={}.get.val", i, j, access));
+                    g.op(format!("derivs e wrt={} via=all", wrt));
+                }
+            }
+        }
+    }
+    let shapes: [(&str, &str, Vec<usize>); 8] = [
+        ("T", "a:6,b:6", vec![6, 6]),
+        ("T", "a:7,b:7", vec![7, 7]),
+        ("T", "a:3,b:11", vec![3, 11]),
+        ("T", "a:2,b:3,c:7", vec![2, 3, 7]),
+        ("T", "a:35", vec![35]),
+        ("M", "r:6,c:6", vec![6, 6]),
+        ("M", "r:3,c:11", vec![3, 11]),
+        ("M", "r:17,c:4", vec![17, 4]),
+    ];
+    for (kind, shape, lens) in shapes.iter() {
+        let total: usize = lens.iter().product();
+        g.count(&format!("c06.large.container.{}.{:02}", kind, total));
+        g.op("@ tapes 1 fp".into());
+        let pv = values(g, 3);
+        g.op(format!("vars p T a:3 {} t=0", pv));
+        let vx = values(g, total);
+        g.op(format!("vars x {} {} {} t=0", kind, shape, vx));
+        let k = value(g);
+        g.op(format!("addn y x {} via=ref_ref", k));
+        g.op("emul z y x".into());
+        let access = if *kind == "M" { "matrix" } else { "index_by" };
+        let pick = |g: &mut Gen| lens.iter().map(|&l| g.rng.below(l).to_string()).collect::<Vec<_>>().join(",");
+        let last = lens.iter().map(|&l| (l - 1).to_string()).collect::<Vec<_>>().join(",");
+        for idx in [pick(g), last.clone()] {
+            g.op(format!("elem e z {} via={}.get.val", idx, access));
+            g.op("derivs e wrt=x,p via=all".into());
+        }
+        // reset onto the non-empty tape, then again after a clear that is followed by new entries
+        g.op("reset x via=reset".into());
+        g.op("sub w x y via=ref_ref".into());
+        let idx = pick(g);
+        g.op(format!("elem e w {} via={}.try.ref", idx, access));
+        g.op("derivs e wrt=x,p via=for".into());
+        g.op("clear t=0".into());
+        let qv = values(g, 2);
+        g.op(format!("vars q T a:2 {} t=0", qv));
+        g.op("reset x via=do_reset".into());
+        g.op("unary u x fn=cube".into());
+        for idx in [pick(g), last.clone()] {
+            g.op(format!("elem e u {} via={}.get.ref", idx, access));
+            g.op("derivs e wrt=x,q via=all".into());
+        }
+    }
+}
+
+/// `f64` at points where a partial derivative is not finite (`sqrt`, `ln`, `k / x`, `x / y`,
+/// `x^0.5` at 0.0), with the offending element at every position of the container: the container
+/// computation against the same computation on scalar `Record`s inside the harness (the Lean model
+/// only answers shapes, constness and positions for these cases; numbers are compared by the
+/// harness, NaN = NaN, bit patterns otherwise).
+fn gen_f64_boundary(g: &mut Gen) {
+    let ops: [(&str, &str); 8] = [
+        ("sqrt", "sqrt y x via=ref"),
+        ("ln", "ln y x via=val"),
+        ("divsw", "divsw y x 2.5 via=ref_ref"),
+        ("pown", "pown y x 0.5 via=ref_ref"),
+        ("ediv", "ediv y c x"),
+        ("binary_div", "binary y c x fn=div"),
+        ("npow", "npow y 0.0 x via=ref_ref"),
+        ("divn", "divn y x 0.0 via=ref_ref"),
+    ];
+    for (kind, shape, n) in [("T", "a:3", 3usize), ("M", "r:2,c:2", 4), ("T", "a:2,b:2", 4)] {
+        for (name, line) in ops.iter() {
+            for pos in 0..n {
+                for after_reset in [false, true] {
+                    g.count(&format!("c06.f64.{}.{}.position{}", kind, name, pos));
+                    g.op("@ tapes 1 f64".into());
+                    let vals: Vec<String> = (0..n).map(|i| if i == pos { "0.0".to_string() } else { format!("{}.5", i + 1) }).collect();
+                    g.op(format!("vars x {} {} {} t=0", kind, shape, vals.join(",")));
+                    g.op(format!("vars c {} {} {} t=0", kind, shape, (0..n).map(|i| format!("{}.25", i + 2)).collect::<Vec<_>>().join(",")));
+                    if after_reset {
+                        g.op("clear t=0".into());
+                        g.op("reset c via=reset".into());
+                        g.op("reset x via=do_reset".into());
+                    }
+                    g.op(line.to_string());
+                    g.op("derivs y wrt=x,c via=all".into());
+                    g.op("emul z y y".into());
+                    g.op("derivs z wrt=x via=for".into());
+                }
+            }
+        }
+    }
+}
+
 /// the witness of defect 11 and its mirror images, for tensors and matrices
 fn gen_constant_operand_matmul(g: &mut Gen) {
     for kind in ["T", "M"] {
@@ -1482,6 +1604,8 @@ pub fn gen(g: &mut Gen) {
     check_catalogue(g);
     gen_every_form(g);
     gen_element_access(g);
+    gen_large(g);
+    gen_f64_boundary(g);
     gen_constant_operand_matmul(g);
     gen_cross_tape(g);
     gen_reset_cycles(g);
